@@ -94,7 +94,7 @@ def meta_spec(draw, depth, in_project):
                     continue
                 c = spec[t].ctl(cname)
                 if draw(st.booleans()):
-                    if c.kind in ("range", "compact", "no_offset") and c.min == 0:
+                    if c.kind in ("range", "compact", "no_offset"):
                         user_sets.append([i, draw(vs.edge_int(c.min, c.max))])
                     elif c.kind == "enum":
                         user_sets.append([i, ["enum", t, c.enum, draw(st.sampled_from(sorted(c.members)))]])
@@ -105,7 +105,12 @@ def meta_spec(draw, depth, in_project):
     labels = []
     if n:
         lidx = draw(st.lists(st.sampled_from(sorted({0, n - 1, n // 2} | set(range(min(n, 4))))), max_size=4, unique=True))
-        labels = [[i, draw(vs.text_no_nul(12))] for i in lidx]
+        words = st.sampled_from(["cutoff", "res", "mix", "vol", "depth", "rate"])
+        mapped = {i for i, _, _ in maps}
+        if mapped and draw(st.booleans()):
+            lidx = sorted(set(lidx) | set(draw(st.lists(st.sampled_from(sorted(mapped)), min_size=1, max_size=3, unique=True))))
+        # controllers that are mapped get a plain one-word label more often (their label alias is then usable)
+        labels = [[i, draw(st.one_of(words, words, vs.text_no_nul(12)) if i in mapped else st.one_of(vs.text_no_nul(12), vs.text_no_nul(12), words, vs.long_text()))] for i in lidx]
     rederive = draw(st.booleans())
     # library precondition (see vlib.edits.live_propagation_hazard): a value assigned through a user
     # controller mapped to (module, index) is echoed to whatever mapping names (module, index + 1)
@@ -196,7 +201,59 @@ def finish_meta(mod, ms, top=True):
             if isinstance(v, list):
                 cls = build.cls_of(v[1])
                 v = getattr(getattr(cls, v[2]), v[3])
-            setattr(mod, "user_defined_%d" % (i + 1), v)
+            alias = alias_of(mod, ms, i)
+            if alias is not None and (i + len(ms.get("user_sets", []))) % 2 == 0:
+                # the controller is also reachable under the name derived from its label
+                setattr(mod, alias, v)
+                got = getattr(mod, "user_defined_%d" % (i + 1))
+                if got != v:
+                    raise PropertyViolation("C15.alias.writes", "assigning %r through the alias %r of user_defined_%d: the controller reads %r" % (v, alias, i + 1, got), key="C15.alias")
+            else:
+                setattr(mod, "user_defined_%d" % (i + 1), v)
+
+
+def alias_names(ms):
+    """{index: alias} for the exposed user-defined controllers whose label yields a usable, unique alias
+    (u_<label> for labels that are a single lower-case ASCII word)."""
+    import re
+
+    n = ms["payload"]["count"]
+    final = {}
+    for i, t in list(ms["payload"].get("labels", [])) + list(ms.get("labels_beyond_count", [])):
+        final[i] = t
+    by_name = {}
+    for i, t in final.items():
+        # only labels that are one lower-case ASCII word: every slug rule turns those into themselves,
+        # so the alias name does not depend on the library's slug conventions
+        if i < n and t and re.fullmatch(r"[a-z]{2,12}", t):
+            by_name.setdefault("u_" + t, []).append(i)
+    # a label that slugs to the same name elsewhere would make the alias ambiguous: leave those out
+    others = [t for i, t in final.items() if i < n and t and not re.fullmatch(r"[a-z]{2,12}", t)]
+    return {idxs[0]: a for a, idxs in by_name.items() if len(idxs) == 1 and not any(a[2:] in (o or "").lower() for o in others)}
+
+
+def alias_of(mod, ms, i):
+    a = alias_names(ms).get(i)
+    if a is None or a in type(mod).__dict__ or a in mod.__dict__:
+        return None
+    return a
+
+
+def check_aliases(ms, mod, where):
+    """Reading a user-defined controller through its label alias gives that controller's value."""
+    hit = False
+    for i, a in sorted(alias_names(ms).items()):
+        if alias_of(mod, ms, i) is None:
+            continue
+        direct = getattr(mod, "user_defined_%d" % (i + 1))
+        try:
+            via = getattr(mod, a)
+        except AttributeError:
+            raise PropertyViolation("C15.alias.missing", "%s: user_defined_%d is labelled %r but the module has no attribute %r" % (where, i + 1, dict(ms["payload"]["labels"]).get(i), a), key="C15.alias")
+        if via != direct:
+            raise PropertyViolation("C15.alias.reads", "%s: %r reads %r, user_defined_%d holds %r" % (where, a, via, i + 1, direct), key="C15.alias")
+        hit = True
+    return hit
 
 
 def depth_of(ms):
@@ -355,6 +412,10 @@ def check_meta(ctx, ms):
             area = d[0][0].split("/")[2] if d[0][0].startswith("/payload/") else d[0][0].split("/")[1]
             raise PropertyViolation("C15.roundtrip", "%s: %s" % (context, "; ".join("%s: %r -> %r" % x for x in d[:4])), key="C15.roundtrip:" + area)
         check_loaded_user_values(ms, bmod, context)
+        if check_aliases(ms, mod, context + " (constructed)") | check_aliases(ms, bmod, context + " (loaded)"):
+            labels.add("label_alias")
+            if any(j < i and dict(ms["payload"]["labels"]).get(j) in (None, "") for i in alias_names(ms) for j in range(i)):
+                labels.add("label_alias_after_unlabelled_controller")
         if s1["payload"]["attached"] != list(range(n)):
             raise PropertyViolation("C15.attached.after_load", "attached user controllers after load %r, expected the first %d" % (s1["payload"]["attached"][:5], n))
         # labels at every index < n, mappings all 96
